@@ -431,6 +431,6 @@ func TestPaths(t *testing.T) {
 	vk.Enumerate(t, "paths-exh-directed", len(dg), func(i int) pathCase {
 		return pathCase{G: graphFromMask(dg[i].n, true, dg[i].mask)}
 	}, checkPaths)
-	vk.Run(t, "paths-small", vk.Opts{Quick: 6000, Thorough: 140000}, drawPaths(12), checkPaths)
-	vk.Run(t, "paths", vk.Opts{Quick: 3000, Thorough: 60000}, drawPaths(60), checkPaths)
+	vk.Run(t, "paths-small", vk.Opts{Quick: 6000, Thorough: 100000}, drawPaths(12), checkPaths)
+	vk.Run(t, "paths", vk.Opts{Quick: 3000, Thorough: 40000}, drawPaths(60), checkPaths)
 }
